@@ -143,7 +143,8 @@ def run(ctx):  # noqa: F811
     from .c05 import pair_exploration
     res = _k_run(ctx)
     pair_exploration(ctx, res)
-    res.coverage["rule"] += ("; plus pairs of real TaskRunner processes on one job directory: A stopped (SIGSTOP) at every traced line event, B "
+    res.coverage["rule"] += ("; plus triples of real TaskRunner processes (failing job: A stopped at every traced line event, B waits for the run lock, A fails and leaves, "
+                             "B is held inside its body while C is launched - C must wait); plus pairs of real TaskRunner processes on one job directory: A stopped (SIGSTOP) at every traced line event, B "
                              "launched meanwhile, A resumed - the body runs exactly once when no success marker existed, never when it did")
     return res
 
